@@ -26,6 +26,7 @@
 #include <functional>
 #include <map>
 #include <memory>
+#include <set>
 #include <string>
 #include <type_traits>
 #include <utility>
@@ -79,10 +80,15 @@ class ChecksumServiceContext {
   // nullptr when `name` is not registered as a service producing exactly T over Buffer (see the header comment).
   template <class Buffer, class T>
   const ChecksumService<Buffer, T>* get(const std::string& name) const {
+    if (disabled().count(name)) return nullptr;
     const auto& m = registry<Buffer, T>();
     auto it = m.find(name);
     return it == m.end() ? nullptr : it->second.get();
   }
+
+  // The application removes whatever is registered under `name` / puts it back (driver commands UNREG / REG).
+  void remove(const std::string& name) { disabled().insert(name); }
+  void restore(const std::string& name) { disabled().erase(name); }
 
   // Application-side registration (the last registration of a name for a given (Buffer, T) wins).
   template <class Buffer, class T>
@@ -97,6 +103,11 @@ class ChecksumServiceContext {
 
  private:
   ChecksumServiceContext() = default;
+
+  static std::set<std::string>& disabled() {
+    static std::set<std::string> d;
+    return d;
+  }
 
   template <class Buffer, class T>
   using Registry = std::map<std::string, std::unique_ptr<ChecksumService<Buffer, T>>>;
